@@ -20,7 +20,7 @@ SPEC = {'id': 'C17',
      'pinned_reader_leak_write_first', 'pinned_reader_leak_at_close', 'pinned_writer_leak_read_first',
      'pinned_leak_per_redial']],
  'ties': [(T, 'Snowflake.Tie.Turbotunnel.' + n) for n in [
-     'queueSize_tie', 'guard_tie', 'less_tie', 'queue_capacities', 'queueIncoming_shape', 'queueWriteTo_shape',
+     'queueSize_tie', 'guard_tie', 'less_tie', 'queue_capacities', 'queueIncoming_shape', 'queueWriteTo_shape', 'trySend_shape',
      'queueReadFrom_shape', 'closeWithError_shape', 'outgoingQueue_shape', 'clientMap_shape', 'dialLoop_shape', 'redialApi_shape',
      'exchange_shape', 'errch_buffered', 'no_retained_goroutine_source']],
  'harness': {'pkg': 'common/turbotunnel', 'test': 'TestVerifC17'},
